@@ -133,8 +133,7 @@ def check_tree():
                         got = m.branch_and_root_from_level(level, leaf, index, dh, tsc_format=tsc)
                     except Exception as e:   # noqa
                         got = repr(e)
-                    if got != want and not (tsc and isinstance(got, tuple) and got[1] == want[1] and
-                                            tsc_equiv(got[0], want[0], spec_branch_root(hs, index)[0])):
+                    if got != want:
                         return {'reproduced': True, 'input': {'n': n, 'index': index, 'depth_higher': dh, 'tsc': tsc},
                                 'detail': 'branch_and_root_from_level differs from branch_and_root'}
     return {'reproduced': False, 'detail': f'{tried} cases agree'}
@@ -162,8 +161,7 @@ async def cache_run(ops, src_len, seed):
             _, length, index, tsc = op
             want = spec_branch_root(hs[:length], index, None, tsc)
             got = await cache.branch_and_root(length, index, tsc_format=tsc)
-            if got[1] != want[1] or (not tsc and got[0] != want[0]) or \
-                    (tsc and not tsc_equiv(got[0], want[0], spec_branch_root(hs[:length], index)[0])):
+            if got != want:
                 return op
     return None
 
